@@ -1,13 +1,115 @@
 import PromModel.Suites.RaceSuite
+import PromProofs.CompactionMain
 /-
   C06 — Queries racing with compaction see each sample exactly once.
+
+  The model (`PromModel/Tsdb/CompactionProtocol.lean`) is a transition system: one maintenance thread whose
+  atomic steps are the protocol steps of db.compactHead / Head.truncateMemory, db.compactOOOHead /
+  Head.truncateOOO, db.compactBlocks / reloadBlocks / deleteBlocks, and ANY NUMBER of reader threads
+  (DB.Querier) whose atomic steps are the loads of the published state. `run σ₀ acts` executes an arbitrary
+  interleaving; the theorems below hold for every reachable state, every reader index and every schedule.
+
+  Proof: the inductive invariant `Inv` (PromProofs/Compaction{Inv,Readers,Steps,Main}.lean) — a global part
+  (what db.blocks covers at each protocol position) and per-reader parts that never mention the other
+  readers.
 -/
 namespace Prom.C06
 open Prom.CompactionProtocol
 
+/-- A state reachable from an initial state (no blocks, all data in the head) by any schedule. -/
+def Reachable (σ : State) : Prop :=
+  ∃ data headMin oooLo oooHi acts,
+    initOk data headMin oooLo oooHi = true ∧ run (initState data headMin oooLo oooHi) acts = some σ
+
+theorem reachable_inv (σ : State) (h : Reachable σ) : Inv σ := by
+  obtain ⟨data, hm, lo, hi, acts, hok, hrun⟩ := h
+  exact run_inv _ σ acts (init_inv data hm lo hi hok) hrun
+
+theorem inBlk_visible (σ : State) (r : Reader) (s : Sample) (hb : RInvB σ r) (hopen : r.isOpen = true)
+    (h : inBlk r s) : viaBlock σ r s = true := by
+  obtain ⟨b, hbm, hs⟩ := h
+  have := hb.br hopen b hbm
+  simp only [viaBlock, List.any_eq_true, Bool.and_eq_true, List.contains_eq_mem, decide_eq_true_eq,
+    Bool.not_eq_eq_eq_not, Bool.not_true, decide_eq_false_iff_not]
+  exact ⟨b, hbm, hs, this⟩
+
+/-- **never_missing.** In every reachable state, for every reader that has left `DB.Querier` and not
+    closed yet (it may iterate now or at any later state — the statement holds at each of them), every
+    committed sample inside its range that was not past retention when the query started is served by
+    the reader's in-order head part, by its out-of-order head part, or by a block of its own list whose
+    files still exist. Whatever the maintenance thread is doing, and whatever the other readers do. -/
+theorem never_missing (σ : State) (hreach : Reachable σ) (r : Reader) (hr : r ∈ σ.readers)
+    (hpc : r.pc = .reading) (s : Sample) (hs : s ∈ σ.data) (hrange : inRange r s = true)
+    (hret : s ∉ r.retired0) : visible σ r s = true := by
+  obtain ⟨hg, hri⟩ := reachable_inv σ hreach
+  obtain ⟨hb, hh, ho⟩ := hri r hr
+  have hopen : r.isOpen = true := by simp [Reader.isOpen, hpc]
+  simp only [inRange, Bool.and_eq_true, decide_eq_true_eq] at hrange
+  have hw : want σ.data r s := ⟨hs, hrange.1, hrange.2, hret⟩
+  have blk : inBlk r s → visible σ r s = true := fun h => by
+    simp [visible, inBlk_visible σ r s hb hopen h]
+  cases hooo : s.ooo with
+  | false =>
+    have hd := hh.hd (Or.inr (Or.inr hpc))
+    cases hl : r.headLo with
+    | none =>
+      rw [hl] at hd
+      exact blk (hd s hw hooo (by omega))
+    | some l =>
+      rw [hl] at hd
+      by_cases h1 : s.t < l
+      · exact blk (hd.1 s hw hooo h1)
+      · by_cases h2 : σ.headGc ≤ s.t
+        · simp [visible, viaHead, hooo, hl, h2]; omega
+        · exact blk (hh.d hpc l hl s hw hooo (by have := hg.g0; omega))
+  | true =>
+    by_cases h1 : s.ref ≤ r.lastGC
+    · exact blk (ho.oa hopen s hw hooo h1)
+    · have hov := ho.ob (by simp [hpc]) s hw hooo (by omega)
+      have hreg := ho.oc (Or.inr hpc)
+      rw [hov] at hreg
+      have hgc := ho.od r.lastGC (by simpa using hreg)
+      have hvo : viaOOO σ r s = true := by
+        simp only [viaOOO, hooo, hreg, Bool.true_and, Bool.and_eq_true, decide_eq_true_eq, if_true]
+        constructor <;> omega
+      simp [visible, hvo]
+
+/-- **never_duplicated.** The merged result (`view` = the parts after ChainedSeriesMerge's
+    de-duplication, C19) contains every wanted sample EXACTLY once, although a sample may be served by the
+    head and by one or several blocks at the same time (`parts` has repetitions). -/
+theorem never_duplicated (σ : State) (hreach : Reachable σ) (r : Reader) (hr : r ∈ σ.readers)
+    (hpc : r.pc = .reading) : (view σ r).Nodup ∧
+      ∀ s ∈ σ.data, inRange r s = true → s ∉ r.retired0 → (view σ r).count s = 1 := by
+  refine ⟨nodup_eraseDups _, ?_⟩
+  intro s hs hrange hret
+  have hv := never_missing σ hreach r hr hpc s hs hrange hret
+  have hmem : s ∈ view σ r := by
+    simp only [view]
+    rw [List.mem_eraseDups]
+    simp only [parts, List.mem_append, List.mem_filter, List.mem_flatMap]
+    simp only [visible, Bool.or_eq_true] at hv
+    rcases hv with hv | hv
+    · left; exact ⟨hs, by simp [hrange, hv]⟩
+    · right
+      simp only [viaBlock, List.any_eq_true, Bool.and_eq_true, List.contains_eq_mem, decide_eq_true_eq,
+        Bool.not_eq_eq_eq_not, Bool.not_true, decide_eq_false_iff_not] at hv
+      obtain ⟨b, hb, hsb, hrem⟩ := hv
+      refine ⟨b, hb, ?_⟩
+      simp [hrem, hsb, hrange]
+  have hnd : (view σ r).Nodup := nodup_eraseDups _
+  rw [hnd.count]; simp [hmem]
+
+/-- **block_not_released_while_read.** The files of a block in the list of a reader that has not closed
+    yet are never removed (`bRemove` = rename to tmp-for-deletion + RemoveAll comes after `Block.Close`,
+    which waits for the pending readers; readers arriving later cannot obtain the block any more). -/
+theorem block_not_released_while_read (σ : State) (hreach : Reachable σ) (r : Reader) (hr : r ∈ σ.readers)
+    (hopen : r.isOpen = true) (b : Blk) (hb : b ∈ r.blocks) : b.id ∉ σ.removed :=
+  ((reachable_inv σ hreach).2 r hr).1.br hopen b hb
+
 /-- A reader that saw the truncation flag never stays registered on the range being truncated: after
     `loadTrunc` its registration (if any) starts at or after the truncation time, so the truncation's wait
-    (`headWaitDone`) does not depend on it — whatever `head.MinTime()` is. -/
+    (`headWaitDone`) does not depend on it — whatever `head.MinTime()` is. Readers that arrive after the
+    flag was published therefore never join the set the wait is on. -/
 theorem reopened_reader_does_not_block (σ : State) (r r' : Reader) (a b hmin : Int)
     (hreg : r.reg = some (r.lo, r.hi))
     (h : rstep σ r .loadTrunc = some r') (hr : r'.reg = some (a, b)) :
